@@ -105,7 +105,7 @@ fn lib_count(fam: Fam, n: usize, ts: &[T]) -> usize {
     }
 }
 
-fn run(c: &Case) -> Verdict {
+pub fn run(c: &Case) -> Verdict {
     let mut ts: Vec<T> = Vec::new();
     for f in &c.fs {
         match load(c.fam, f) {
